@@ -94,6 +94,22 @@ entc! {
 	c07t_entc_u64_2: u64, 2; c07t_entc_u64_6: u64, 6; c07t_entc_u64_7: u64, 7; c07t_entc_u64_8: u64, 8; c07t_entc_u128_5: u128, 5; c07t_entc_u128_9: u128, 9; c07t_entc_u128_13: u128, 13;
 }
 
+/// the two helper entry points built on using_encoded: Joiner::and (append) and KeyedVec::to_keyed_vec (prepend a key)
+#[kani::proof]
+#[kani::unwind(10)]
+pub fn c07q_joiner_keyedvec() {
+	use parity_scale_codec::{Joiner, KeyedVec};
+	let v: (u16, Option<u8>) = (kani::any(), Option::<u8>::sym(0));
+	let mut a = Buf::<8>::new();
+	v.encode_to(&mut a);
+	let pre: [u8; 2] = kani::any();
+	let joined: Vec<u8> = alloc::vec![pre[0], pre[1]].and(&v);
+	assert!(joined.len() == 2 + a.n && joined[0] == pre[0] && joined[1] == pre[1] && same_slice(&joined[2..], a.bytes()), "Joiner::and is not append-the-encoding");
+	let keyed = v.to_keyed_vec(&pre[..]);
+	assert!(same_slice(&keyed, &joined), "KeyedVec::to_keyed_vec is not key ++ encoding");
+	core::mem::forget((joined, keyed));
+}
+
 /// str / [T] (unsized, override all methods)
 #[kani::proof]
 #[kani::unwind(8)]
